@@ -267,7 +267,7 @@ class CoqBatch:
             lines.append("Definition checks : list (nat * bool) := [")
             body = []
             for j, (case, code, eq_fn, mexp, rlit) in enumerate(sh_checks):
-                body.append(f"  ({j}%nat, {eq_fn} ({self._subst(case, mexp)}) ({self._subst(case, rlit)}))")
+                body.append(f"  ({j}%nat, {self._subst(case, eq_fn)} ({self._subst(case, mexp)}) ({self._subst(case, rlit)}))")
             lines.append(";\n".join(body))
             lines.append("].")
             lines.append("Eval vm_compute in (map fst (List.filter (fun x => negb (snd x)) checks)).")
